@@ -153,7 +153,24 @@ def run_impl(c, wd, tag="f"):
                         single = to_ids(numpy.array(r[:, 0]).reshape(-1, 1)) if full.shape[1] else None
                     except IndexError as e:
                         single = [f"IndexError: {e}"]
-                    acc = {"numpy": to_ids(full),
+                    # arbitrary index keys (negative bounds, steps, integers): numpy semantics on the burnt-in array
+                    bad_keys = []
+                    nn = full.shape[1]
+                    keys = [(slice(None), slice(-1, None)), (slice(None), slice(None, -1)), (0, slice(-3, -1)), (slice(None), -1),
+                            (slice(None), slice(None, None, 2)), (-1, slice(None)), (slice(None), slice(1, None)), (slice(0, 1), slice(-2, None))]
+                    for key in keys:
+                        try:
+                            want_k = full[key]
+                        except IndexError:
+                            continue
+                        try:
+                            got_k = numpy.asarray(r[key])
+                        except Exception as e:  # noqa
+                            bad_keys.append((repr(key), f"raised {type(e).__name__}"))
+                            continue
+                        if got_k.shape != numpy.asarray(want_k).shape or not numpy.array_equal(got_k, want_k, equal_nan=True):
+                            bad_keys.append((repr(key), f"shape {got_k.shape} vs {numpy.asarray(want_k).shape}"))
+                    acc = {"bad_keys": bad_keys, "numpy": to_ids(full),
                            "samples_ok": numpy.array_equal(numpy.array(r.samples), full[:-1, :], equal_nan=True),
                            "misfits_ok": numpy.array_equal(numpy.array(r.misfits).flatten(), full[-1, :].flatten(), equal_nan=True),
                            "single": single}
@@ -227,6 +244,8 @@ def spec_oracle(c, o):
                 out.append((f"numpy-{be}", f"n={n}, burn-in {b}: .numpy gives {acc['numpy']}"))
             if not acc["samples_ok"] or not acc["misfits_ok"]:
                 out.append((f"samples-misfits-{be}", f"n={n}, burn-in {b}: .samples/.misfits are not the rows of .numpy"))
+            for key, why in acc.get("bad_keys", [])[:1]:
+                out.append((f"getitem-key-{be}", f"n={n}, burn-in {b}: samples[{key}] differs from the burnt-in array indexed the same way ({why})"))
             if acc["single"] is not None and acc["single"] != [b]:
                 out.append((f"getitem-{be}", f"n={n}, burn-in {b}: samples[:, 0] is column {acc['single']}, expected [{b}]"))
     return out[:3]
